@@ -193,7 +193,7 @@ VectorDescription WhiteNoiseAcceleration::getStateDescription()
 
 MatrixXd WhiteNoiseAcceleration::getNoiseSample(const std::size_t num)
 {
-    MatrixXd rand_vectors(4, num);
+    MatrixXd rand_vectors(pimpl_->sqrt_Q_.cols(), num);
     for (int i = 0; i < rand_vectors.size(); i++)
         *(rand_vectors.data() + i) = pimpl_->gauss_rnd_sample_();
 
